@@ -392,6 +392,13 @@ func (self *VM) HandleTermination(
 		// Get function return value.
 		returnValueRaw := exitCore.Stack[len(exitCore.Stack)-1]
 
+		// A function value (also the `join` of a thread handle) cannot be looked into at runtime: the static
+		// types have vouched for it, the host gets the value as it is.
+		if typeContainsFunction(invocation.FunctionSignature.ReturnType) {
+			returnValue = *returnValueRaw
+			break
+		}
+
 		// Perform type assertion.
 		castValue, interrupt := value.DeepCast(
 			*returnValueRaw,
@@ -410,6 +417,25 @@ func (self *VM) HandleTermination(
 		Exception:   nil,
 		ReturnValue: returnValue,
 	}
+}
+
+func typeContainsFunction(typ ast.Type) bool {
+	switch typ.Kind() {
+	case ast.FnTypeKind:
+		return true
+	case ast.ListTypeKind:
+		return typeContainsFunction(typ.(ast.ListType).Inner)
+	case ast.OptionTypeKind:
+		return typeContainsFunction(typ.(ast.OptionType).Inner)
+	case ast.ObjectTypeKind:
+		for _, field := range typ.(ast.ObjectType).ObjFields {
+			if typeContainsFunction(field.Type) {
+				return true
+			}
+		}
+	}
+
+	return false
 }
 
 // Returns the corenum of the newly spawned process
